@@ -35,6 +35,73 @@ func runC18(c *Ctx) {
 	c18Ordinals(c)
 	c18NoCopy(c)
 	c18ReadOrdinals(c)
+	c18FileID(c)
+}
+
+// c18FileID: the file identifier is part of the AAD of every module and is
+// what ties a module to its file. A writer that is reused for another file
+// (Reset) draws a new one: the function that fills the identifier from
+// crypto/rand is reachable from (*writer).reset, and reset hands the new
+// identifier to the column writers (which keep their own reference).
+func c18FileID(c *Ctx) {
+	p := c.P
+	rule := "C18.fileid"
+	idField := p.LookupField("fileEncryptionState", "fileUnique")
+	colField := p.LookupField("ColumnWriter", "fileUnique")
+	resetObj := p.LookupFunc("(*writer).reset")
+	if !c.Anchor(rule, "fileEncryptionState.fileUnique", idField != nil) || !c.Anchor(rule, "ColumnWriter.fileUnique", colField != nil) || !c.Anchor(rule, "(*writer).reset", resetObj != nil) {
+		return
+	}
+	// functions that read crypto/rand and assign the identifier
+	var drawers []*ssa.Function
+	for _, fn := range p.ModuleSSAFuncs() {
+		if fn.Origin() != nil || fn.Blocks == nil {
+			continue
+		}
+		reads, stores := false, false
+		allInstrs(fn, false, func(_ *ssa.Function, ins ssa.Instruction) {
+			switch x := ins.(type) {
+			case *ssa.Store:
+				if fs, _, elem := fieldChain(x.Addr); len(fs) > 0 && !elem && fs[len(fs)-1] == idField {
+					stores = true
+				}
+			case ssa.CallInstruction:
+				for _, a := range x.Common().Args {
+					for _, o := range Origins(a, OriginOpts{}) {
+						if g, ok := o.Val.(*ssa.Global); ok && o.Kind == OrgGlobal && g.Pkg != nil && g.Pkg.Pkg.Path() == "crypto/rand" {
+							reads = true
+						}
+					}
+				}
+			}
+		})
+		if reads && stores {
+			drawers = append(drawers, fn)
+		}
+	}
+	if !c.Anchor(rule, "a function that draws the file identifier from crypto/rand", len(drawers) > 0) {
+		return
+	}
+	_, closure := ResetCover(p, []*ssa.Function{p.SSAFunc(resetObj)}, 7)
+	reached := false
+	for _, d := range drawers {
+		if closure[d] {
+			reached = true
+		}
+	}
+	c.Check(rule, "(*writer).reset draws a new file identifier", resetObj.Pos(), reached, "(*writer).reset reaches no function that draws the random file identifier: every file written by a reused writer carries the same identifier, and a module transplanted from one of them into another at the same position is accepted")
+	propagated := false
+	for fn := range closure {
+		allInstrs(fn, false, func(_ *ssa.Function, ins ssa.Instruction) {
+			if st, ok := ins.(*ssa.Store); ok {
+				if fs, _, elem := fieldChain(st.Addr); len(fs) > 0 && !elem && fs[len(fs)-1] == colField {
+					propagated = true
+				}
+			}
+		})
+	}
+	c.Check(rule, "(*writer).reset hands the new identifier to the column writers", resetObj.Pos(), propagated, "the column writers keep their own reference to the file identifier; reset does not update it, so pages are sealed under the previous identifier while the footer announces the new one")
+	c.Min(rule, 2)
 }
 
 // c18ReadOrdinals: the reader derives the AAD of the next page from
@@ -512,7 +579,7 @@ func c18Construct(c *Ctx) {
 
 func c18Auth(c *Ctx) {
 	names := map[string]bool{"decryptModule": true, "readDecryptedEnvelopeFrom": true, "verifyFooterSignature": true, "(KeyRetriever).FooterKey": true, "(KeyRetriever).ColumnKey": true,
-		"encryptModule": true, "signFooter": true, "newFileEncryptionState": true, "(*FilePages).readEncryptedPage": true}
+		"encryptModule": true, "signFooter": true, "newFileEncryptionState": true, "(*fileEncryptionState).newFileIdentifier": true, "(*FilePages).readEncryptedPage": true}
 	runErrRule(c, "C18.auth",
 		func(fn *ssa.Function) bool { return true },
 		func(s ErrSite) bool { return names[s.Callee] },
